@@ -59,6 +59,7 @@ def check_accept_paths(P, chk):
     chk.analysed(b)
     rets = q.ok_err_assignments(b)
     n_ok = 0
+    n_err = 0
     for bb, v, rv in rets:
         where = b.loc(bb)
         if v == "Ok":
@@ -125,7 +126,8 @@ def check_accept_paths(P, chk):
                 s = mir.operand_shape(b, f["op"])
                 if "UnbalancedPostings" in s:
                     ok = True
-            chk.require(ok, R_REJ, "check_balance|Err@%s" % ("UnbalancedPostings" if ok else "other"), where,
+            n_err += 1
+            chk.require(ok, R_REJ, "check_balance|Err#%d is UnbalancedPostings" % n_err, where,
                         "check_balance returns an error other than UnbalancedPostings",
                         "Err(UnbalancedPostings(..))")
         else:
@@ -156,6 +158,19 @@ def check_maybe_pair(P, chk):
             if rel == "Eq" and ro.get("int") == 2 and \
                     q.all_roots(b, lo, lambda r: r.kind == "call" and r.name == "std::collections::HashMap::len"):
                 ok = True
+        if not ok:
+            # `match (it.next(), it.next(), it.next()) { (Some(a), Some(b), None) => Some(..) }`: exactly two elements
+            nexts = [nb for nb, t in b.calls() if (callee_def(t) or "") == "std::iter::Iterator::next" and t["args"] and
+                     q.chains(b, t["args"][0]) and all(q.is_param(r, "self", ("values",)) for cn, r in q.chains(b, t["args"][0]))]
+            order = sorted(nexts, key=lambda n: sum(1 for m in nexts if m != n and b.must_pass_block(n, m)))
+            if len(order) == 3 and not any(n in blks for blks in b.loops().values() for n in nexts) and \
+                    all(b.must_pass_block(order[i + 1], order[i]) for i in range(2)):
+                g = {}
+                for roots, labs in q.variant_guards(b, bb):
+                    for r in roots:
+                        if r.kind == "call" and r.site in order and len(labs) == 1:
+                            g[r.site] = labs[0]
+                ok = g.get(order[0]) == "Some" and g.get(order[1]) == "Some" and g.get(order[2]) == "None"
         chk.require(ok, R_PAIR, "maybe_pair|Some-only-when-len==2", b.loc(bb),
                     "maybe_pair can return Some without values.len() == 2 being established",
                     "Some only under len() == 2")
